@@ -230,7 +230,7 @@ def freeToBin (s : State) (i : Nat) (addr : Addr) : State :=
 
 /-- `s_sba_alloc`: a bin serves sizes up to `s_max_bin_size`, the parent everything larger -/
 def sbaAlloc (s : State) (size os big : Nat) : State × Option Ptr :=
-  if size ≤ maxBinSize then
+  if servedByBin size then      -- GENERATED from the test in s_sba_alloc (`size <= s_max_bin_size`)
     let r := allocFromBin os 2 s (findBin size)
     (r.1, r.2.map Ptr.chunk)
   else
@@ -333,12 +333,17 @@ def release (s : State) (p : Ptr) : State := (act s (.free p)).1
 
 /-- `aws_mem_calloc(sba, num, size)` → `s_sba_mem_calloc`: allocate `num*size`, `memset` 0 -/
 def calloc (s : State) (num size os big : Nat) : State × Option Ptr :=
-  if num = 0 ∨ size = 0 ∨ num * size ≥ SIZE_MOD then (s, none)
+  if num = 0 ∨ size = 0 then (s, none)                 -- AWS_FATAL_PRECONDITION(num != 0 && size != 0)
   else
-    let r := act s (.alloc (num * size) os big)
-    match r.2 with
-    | some p => ((act r.1 (.write p (List.replicate (num * size) 0))).1, some p)
-    | none => (r.1, none)
+    -- `aws_mem_calloc` computes the total with the GENERATED `aws_mul_size_checked` BEFORE it dispatches to the
+    -- allocator's `mem_calloc`; an overflowing product is a fatal assert: no block is returned
+    match MathInl.aws_mul_size_checked num size with
+    | .err _ => (s, none)
+    | .ok total =>
+      let r := act s (.alloc total os big)
+      match r.2 with
+      | some p => ((act r.1 (.write p (List.replicate total 0))).1, some p)
+      | none => (r.1, none)
 
 /-- new block of `new` bytes, `memcpy` of `n` bytes, old block freed -/
 def reallocMove (s : State) (p : Ptr) (n new os big : Nat) : State × Option Ptr :=
